@@ -158,7 +158,7 @@ REGION_LAYOUTS = {
   "three": [{"id": "r1"}, {"id": "r2", "st": {"Position": ["pos", L(5, "%"), L(5, "%"), "right", "bottom"], "Extent": ["ext", L(20, "%"), L(50, "%")]}}, {"id": "r3"}],
 }
 DIV_LAYOUTS = ["1div1p", "1div2p", "2div", "3div", "nested1p", "nested+sibling", "nested2"]
-BR_PATTERNS = ["none", "between", "edges", "double"]
+BR_PATTERNS = ["none", "between", "edges", "double", "triple"]
 TIMINGS = ["bounded", "unbounded", "consecutive", "overlap"]
 
 
@@ -178,6 +178,8 @@ def struct_doc(rl, dl, brp, tim):
       kids = [{"k": "br", "id": f"br{k}x"}] + kids + [_span(f"s{k}b", b), {"k": "br", "id": f"br{k}y"}]
     elif brp == "double":
       kids += [{"k": "br", "id": f"br{k}x"}, {"k": "br", "id": f"br{k}y"}, _span(f"s{k}b", b)]
+    elif brp == "triple":
+      kids += [{"k": "br", "id": f"br{k}x"}, {"k": "br", "id": f"br{k}y"}, {"k": "br", "id": f"br{k}z"}, _span(f"s{k}b", b)]
     else:
       kids += [_span(f"s{k}b", b)]
     p = node("p", kids, id=f"p{k}")
@@ -245,6 +247,24 @@ def text_doc(tok, space, twice):
   kids = [_span("s1", tok, sp=space)]
   if twice:
     kids.append(_span("s2", tok, sp=space))
+  p = node("p", kids, id="p1", b=F(1), e=F(2), sp=space, r="r1")
+  return doc_spec(node("body", [node("div", [p], id="d1")], id="b"), [{"id": "r1"}])
+
+
+def fam_split_items():
+  """markup-significant strings cut into two or three adjacent spans at every position: escaping must not depend on how the
+  text is segmented (WebVTT only: SubRip has no escape mechanism)"""
+  items = []
+  for s in ("x-->y", "a<b>c", "a&amp;b", "1<2>0", "&lt;", "-->"):
+    for i in range(1, len(s)):
+      items.append([s[:i], s[i:]])
+      for j in range(i + 1, len(s)):
+        items.append([s[:i], s[i:j], s[j:]])
+  return items
+
+
+def split_doc(parts, space):
+  kids = [_span(f"s{k}", t, sp=space) for k, t in enumerate(parts)]
   p = node("p", kids, id="p1", b=F(1), e=F(2), sp=space, r="r1")
   return doc_spec(node("body", [node("div", [p], id="d1")], id="b"), [{"id": "r1"}])
 
